@@ -9,7 +9,7 @@ from harness import table_scorers as ts
 from harness.engine import coq_bad_cases, coq_eval, nlist, zlist, zlit, zmat
 
 INFO = {
-    "extra_targets": ["Check/PeltCheck.vo", "Check/GenericCheck.vo"],
+    "extra_targets": ["Check/PeltCheck.vo", "Check/GenericCheck.vo", "Check/FloatRunCheck.vo"],
     "level": "proof",
     "rule": "integer table costs driven through the real PELT (penalty_ set to an integer after fit): "
             "stream A = sums of per-column min-loss costs (split inequality holds by construction, checked by split_okb in Coq), "
@@ -187,6 +187,7 @@ def run(ctx):
     # ---- the same search loop on BINARY64 score tables of the real built-in scorers (Model/Generic.v at Model/GenericF.v), bit for bit ----
     from harness import floatstreams
     floatstreams.pelt_float_stream(ctx, ctx.n(24, 160))
+    floatstreams.pelt_l2_end_to_end_stream(ctx, ctx.n(18, 120))
     # the DEFAULT configuration on series of realistic length and width, decided by the property-level twin of the model
     floatstreams.pelt_default_scale_stream(ctx, ctx.n(2, 10))
 
